@@ -350,7 +350,7 @@ func c14R5(c *Ctx) {
 					if d > 6 {
 						return false, "too involved"
 					}
-					v = unwrapLoad(v)
+					v = stripStringConv(unwrapLoad(v))
 					switch x := v.(type) {
 					case *ssa.Const:
 						if s, ok := constString(x); ok {
@@ -363,7 +363,7 @@ func c14R5(c *Ctx) {
 						if x.Op == token.ADD {
 							var ls []ssa.Value
 							leaves(x, &ls, 0)
-							if s, ok := constString(unwrapLoad(ls[0])); ok && okLead(strings.TrimSuffix(s, ";")) {
+							if s, ok := constString(stripStringConv(unwrapLoad(ls[0]))); ok && okLead(strings.TrimSuffix(s, ";")) {
 								return true, ""
 							}
 							return false, "the style does not start with a constant SGR code"
